@@ -21,7 +21,7 @@ func VerifyFunc(P *Program, fn *ssa.Function, spec *FuncSpec, prop string) (ex *
 		env:      &TEnv{mode: spec.Mode, d: NewDecls(), subst: map[*types.TypeParam]types.Type{}},
 		initHeap: map[string]*Term{}, axiomSet: map[string]bool{}, strs: map[string]*Term{},
 		entryVals: map[string]*Val{}, paramTypes: map[string]types.Type{}, ghostVals: map[string]*SV{},
-		siteOrd: map[ssa.Instruction]int{}, maxPaths: 4000,
+		siteOrd: map[ssa.Instruction]int{}, maxPaths: 4000, inputNames: map[string]string{},
 		trusted: map[string]bool{}, callees: map[string]bool{}, usedSpecFn: map[string]bool{}, recDefs: map[string]bool{},
 	}
 	defer func() {
@@ -50,6 +50,17 @@ func VerifyFunc(P *Program, fn *ssa.Function, spec *FuncSpec, prop string) (ex *
 		ex.entryVals[names[i]] = v
 		ex.paramTypes[names[i]] = p.Type()
 		ex.flatten(p.Type(), v, "", func(l Leaf, t *Term) { ex.inputs = append(ex.inputs, t) })
+		// the first elements of integer slices, for replay
+		if sl, ok := p.Type().Underlying().(*types.Slice); ok && v.Sl != nil {
+			if _, _, isInt := intInfo(sl.Elem()); isInt {
+				for k := int64(0); k < 24; k++ {
+					lv := ex.env.leaves(sl.Elem())[0]
+					t := Select(Select(ex.elemArr(st, sl.Elem(), "", lv.Sort), v.Sl.Arr), ex.iadd(v.Sl.Off, ex.intConst(k)))
+					ex.inputs = append(ex.inputs, t)
+					ex.inputNames[t.String()] = fmt.Sprintf("elem %s %d", names[i], k)
+				}
+			}
+		}
 	}
 	for _, fv := range fn.FreeVars {
 		v := ex.namedVal(fv.Type(), "free "+fv.Name())
@@ -223,6 +234,16 @@ func (ex *Exec) loopHeader(st *State, fr *Frame, b *ssa.BasicBlock, n int, li *l
 	fname := ex.fnName()
 	if fr.id != 0 {
 		fname = strings.TrimPrefix(funcKey(fr.fn), modulePath+"/")
+	}
+	if cexMode {
+		// bounded unrolling without unwinding assertion (counterexample search only)
+		vis := st.loops[key]
+		if vis == nil {
+			vis = &loopVisit{}
+		}
+		nv := &loopVisit{iters: vis.iters + 1}
+		st.loops[key] = nv
+		return nv.iters <= cexUnroll
 	}
 	if ls == nil {
 		panic(oos(fmt.Sprintf("loop %d of %s has no invariant", n, fname)))
